@@ -63,6 +63,48 @@ def outputfull(rep, f, c):
                        'OutputFull is constructed without a failed space test controlling it: a call could report OutputFull although the output fits (no progress)',
                        sp_str(st['sp']), {'controlled_by': how}, c)
     rep.floor('R-PROGRESS.a', 'OutputFull constructions', n, 94, c)
+    # wrapper level (BOM/life-cycle layer, variant dispatch): the with-replacement wrappers are decided shape-exactly by p_c09.wrapper;
+    # everywhere else an OutputFull may only be the pass-through of an inner OutputFull or sit behind a destination-length threshold
+    # that does not exceed the documented minimum for that sink.
+    seen = 0
+    wrapped = {w[0] for w in p_c09.WRAPPERS}
+    for name, b in sorted(f.bodies.items()):
+        if not name.startswith(('Decoder::', 'Encoder::', 'variant::')) or b.kind not in ('fn', 'assoc_fn'):
+            continue
+        r = Resolver(b)
+        for bi, blk in enumerate(b.blocks):
+            for st in blk['s']:
+                if not ('assign' in st and 'aggregate' in st['rv'] and isinstance(st['rv']['aggregate'], dict) and st['rv']['aggregate'].get('variant') == 'OutputFull'
+                        and st['rv']['aggregate'].get('adt') in ('DecoderResult', 'EncoderResult', 'CoderResult')):
+                    continue
+                seen += 1
+                if name in wrapped:
+                    continue
+                how = None
+                for k, e, v, S in block_conditions(b, bi, r):
+                    if k == 'variant' and v == 'OutputFull':
+                        how = 'pass-through of an inner OutputFull'
+                    if k == 'bool' and e[0] == 'bin' and e[1] in ('Lt', 'Le', 'Ge', 'Gt') and e[2][0] == 'len' and e[3][0] == 'c':
+                        base = strip_ref(e[2][1])
+                        if base[0] == 'loc' and t_dst.is_mut_slice_ty(b.locals[base[1]]['ty']):
+                            # the failing side of `dst.len() < k` (true) / `dst.len() >= k` (false)
+                            fails = (e[1] in ('Lt', 'Le')) == bool(v)
+                            kk = e[3][1] + (1 if e[1] in ('Le', 'Gt') else 0)
+                            m = 2 if 'u16' in b.locals[base[1]]['ty'] else 4
+                            if fails and kk <= m:
+                                how = 'destination shorter than %d <= documented minimum %d' % (kk, m)
+                            elif fails:
+                                how = None
+                                rep.ob('R-PROGRESS.a.wrapper', '%s:OutputFull#dst.len()<%d' % (name, kk), False,
+                                       'OutputFull is returned whenever the destination is shorter than %d units, but the documented minimum for this sink is %d: '
+                                       'a caller looping with a minimum-size buffer gets OutputFull with nothing read or written forever' % (kk, m),
+                                       sp_str(st['sp']), {'threshold': kk, 'documented_minimum': m}, c)
+                                how = 'reported'
+                if how != 'reported':
+                    rep.ob('R-PROGRESS.a.wrapper', '%s:OutputFull#%s' % (name, how or 'unconditional'), how is not None,
+                           'wrapper-level OutputFull is neither the pass-through of an inner OutputFull nor behind a destination-length test',
+                           sp_str(st['sp']), {'controlled_by': how}, c)
+    rep.floor('R-PROGRESS.a.wrapper', 'OutputFull constructions seen at wrapper level (matcher self-test: the with-replacement wrappers contain 8)', seen, 8, c)
 
 
 def capacities(rep, f, c, cap_use):
